@@ -114,6 +114,10 @@ inductive LoopResult where
 def pingLoopFrom : Nat → List TickOutcome → LoopResult
   | _, [] => .running
   | k, .ok :: rest => pingLoopFrom (k + 1) rest
+  | k, .writeErr :: rest =>
+    -- the loop gives up on the error its ping returned; if the source decided on something else
+    -- (fact false) a failed write would be taken for an acknowledged tick
+    if Facts.C43.pingLoopFailsOnPingError then .failed k else pingLoopFrom (k + 1) rest
   | k, _ :: _ => .failed k
 
 def pingLoop (os : List TickOutcome) : LoopResult := pingLoopFrom 0 os
